@@ -14,7 +14,8 @@ RULE = ("Round trip: n steps, dt -> -dt, n steps.  JANUS (orders 2,4,6,8,10; sca
         "independently; N 2-6 hierarchical or comparable-mass systems; n <= 300; both signs of dt; with and without "
         "read-only pre/post_timestep_modifications / heartbeat observers installed; gravity basic / compensated / "
         "none; redundant re-assignment of scale_pos/scale_vel/order/integrator/gravity/dt to their current values at "
-        "generated points of either leg; open or periodic box small enough that bodies cross a face (must leave the forward trajectory bitwise unchanged); all particles active or N_active<N with testparticle_type 0/1; dt up to 0.1 P_min): the particle "
+        "generated points of either leg; optional burn-in of 1-3 steps with WHFast/SABA/EOS/LEAPFROG/IAS15 on the same "
+        "simulation with the round trip starting at the hand-over; open or periodic box small enough that bodies cross a face (must leave the forward trajectory bitwise unchanged); all particles active or N_active<N with testparticle_type 0/1; dt up to 0.1 P_min): the particle "
         "bit patterns and the integer state p_int must equal those of the initial state put on the grid.  "
         "LEAPFROG, WHFast (4 coordinate systems, default kernel, no correctors, safe_mode 0/1), SABA types without "
         "correctors, EOS with unprocessed splittings on both levels, SEI: the state must return to the initial "
@@ -39,6 +40,8 @@ CLASSES = ["%s/monitor:%s" % (a, b) for a in ("janus", "symmetric", "sei") for b
            "janus/gravity:none", "janus/testparticles:type0", "janus/testparticles:type1",
            "janus/compensated+testparticles"] + ["janus/reassign:" + w for w in SETTINGS_NAMES] + \
           ["janus/reassign_leg%d" % i for i in range(3)] + \
+          ["janus/burnin:" + b_ for b_ in ("whfast:jacobi", "whfast:democraticheliocentric", "whfast:whds",
+                                            "whfast:barycentric", "saba", "eos", "leapfrog", "ias15")] + \
           ["janus/periodic", "janus/periodic_outside_at_turn", "janus_tp/periodic", "janus_tp/periodic_outside_at_turn"] + \
           ["%s/drive:%s" % (a_, b_) for a_ in ("janus", "janus_tp", "symmetric", "sei")
            for b_ in ("steps/manual/steps", "integrate/manual/integrate", "integrate/integrate/integrate",
@@ -139,6 +142,25 @@ def _leg_steps(sim, n, points):
         sim.steps(n - done)
 
 
+# burn-in: the same simulation first runs k steps of another integrator, then the user hands over to JANUS
+BURN_SCHEMES = ["whfast:jacobi:1", "whfast:democraticheliocentric:1", "whfast:whds:0", "whfast:barycentric:1",
+                "saba:1:1", "saba:10,6,4:0", "eos:lf:lf", "eos:lf4:lf", "leapfrog", "ias15"]
+burnin = st.one_of(st.none(), st.none(), st.tuples(st.sampled_from(BURN_SCHEMES), st.integers(1, 3),
+                                                   st.sampled_from([0.01, 0.03, -0.02])))
+
+
+def burn(sim, b, P_min):
+    """k steps of another integrator on this very simulation, synchronised, ready for the hand-over."""
+    scheme, k, frac = b
+    if scheme == "ias15":
+        sim.integrator = "ias15"
+    else:
+        configure(sim, scheme, {"eos_n": 2, "eos_safe": 1})
+    sim.dt = frac * P_min
+    sim.steps(k)
+    sim.synchronize()
+
+
 # ---------------------------------------------------------------------------------------------------------
 # JANUS
 
@@ -162,6 +184,7 @@ janus_case = st.fixed_dictionaries({
     # outer bodies cross a face on the way.  JANUS keeps its integer state authoritative: wrapping only moves the
     # double copy, so the round trip must still be exact
     "box": st.sampled_from([None, None, 1.02, 1.1, 1.5]),
+    "burnin": burnin,
 })
 # focus on the force-routine lattice: several active bodies plus test particles, fine grid, longer steps
 janus_tp_case = st.fixed_dictionaries({
@@ -179,6 +202,7 @@ janus_tp_case = st.fixed_dictionaries({
     "reconf": reconf,
     "drive": drive,
     "box": st.sampled_from([None, None, 1.1]),
+    "burnin": burnin,
 })
 XYZ = ("x", "y", "z", "vx", "vy", "vz")
 
@@ -190,6 +214,18 @@ def run_janus(c, ctx):
     warnings.simplefilter("ignore")
     sysd = c["system"]
     parts = sysd["particles"]
+    bi = c.get("burnin")
+    if bi is not None:
+        # the round trip starts AT the hand-over: run the burn-in once to learn the hand-over state, put that state
+        # on the grid ourselves (below); make() repeats the identical burn-in on the simulation under test
+        s0_ = rb.new_sim({"G": sysd["G"], "particles": parts})
+        burn(s0_, bi, sysd["P_min"])
+        parts = [dict(p, **{k: getattr(s0_.particles[i], k) for k in XYZ}) for i, p in enumerate(parts)]
+        del s0_
+        if not all(math.isfinite(p[k]) for p in parts for k in XYZ):
+            ctx.skip("burn-in left a non-finite state")
+            return
+        ctx.cls("burnin:" + bi[0].split(":")[0] + (":" + bi[0].split(":")[1] if bi[0].startswith("whfast") else ""))
     xmax = max(abs(p[k]) for p in parts for k in ("x", "y", "z"))
     vmax = max(abs(p[k]) for p in parts for k in ("vx", "vy", "vz"))
     sp = max(10.0 ** (-c["kpos"]), xmax / 2.0 ** 60)
@@ -213,15 +249,21 @@ def run_janus(c, ctx):
         grid.append(ints)
     dt = c["dt_frac"] * sysd["P_min"] * (-1.0 if c["backward_first"] else 1.0)
 
-    boxf = c.get("box")
+    boxf = c.get("box") if bi is None else None
     xmax0 = max(abs(q[k]) for q in snapped for k in ("x", "y", "z"))
 
     def make():
-        spec = {"G": sysd["G"], "particles": snapped}
+        spec = {"G": sysd["G"], "particles": snapped if bi is None else sysd["particles"]}
         if boxf is not None and xmax0 > 0:
             spec["box"] = {"size": 2.0 * boxf * xmax0}
             spec["boundary"] = "periodic"
         s_ = rb.new_sim(spec)
+        if bi is not None:
+            burn(s_, bi, sysd["P_min"])
+            for i_, q_ in enumerate(snapped):          # hand-over state put on the grid (a particle edit)
+                for k_ in XYZ:
+                    setattr(s_.particles[i_], k_, q_[k_])
+            s_.ri_janus.recalculate_integer_coordinates_this_timestep = 1
         s_.integrator = "janus"
         s_.gravity = c["gravity"]
         if c["n_active"] is not None and len(snapped) >= 2:
@@ -237,6 +279,9 @@ def run_janus(c, ctx):
         s_.dt = dt
         return s_
     sim = make()
+    # masses at the start of the round trip (a WHFast barycentric burn-in rebuilds the star's mass as
+    # M_tot - sum(m_i), which may differ from the input by an ulp: not JANUS's doing)
+    m_handover = [sim.particles[i].m for i in range(sim.N)]
     ctx.cls("gravity:" + c["gravity"])
     if c["n_active"] is not None and len(snapped) >= 2:
         ctx.cls("testparticles:type%d" % c["testparticle_type"])
@@ -318,7 +363,7 @@ def run_janus(c, ctx):
         if k in c["monitor"] and seen[k] != 2 * n:
             raise RuntimeError("harness: %s monitor called %d times in %d steps" % (k, seen[k], 2 * n))
     for i in range(N):
-        if sim.particles[i].m != snapped[i]["m"]:
+        if sim.particles[i].m != m_handover[i]:
             raise Violation("JANUS changed the mass of particle %d" % i)
     ctx.stat_max("janus_moved_grid_units_log10", math.log10(moved) if moved > 0 else 0)
     if n >= 10 and moved > 1e6 and far_t != 0.0:
